@@ -29,7 +29,9 @@ def fresh_pool():
     Mx1 = type('Mx1', (ComplexModel,), {'__namespace__': 'tns', '__mixin__': True, '_type_info': [('m1', Integer), ('m2', Unicode)]})
     Mx2 = type('Mx2', (ComplexModel,), {'__namespace__': 'tns', '__mixin__': True, '_type_info': [('n1', Integer)]})
     D = type('D', (Mx1, Mx2), {'__namespace__': 'tns', '_type_info': [('d', Integer)]})
-    return [None, Integer, Unicode, A, B, D]       # 1-based
+    O = type('O', (ComplexModel,), {'__namespace__': 'tns', '_type_info': [('p', Integer), ('q', Unicode(order=0)), ('r', Integer(order=1)),
+                                                                           ('t', Unicode(order=0))]})
+    return [None, Integer, Unicode, A, B, D, O]       # 1-based
 
 
 def attrs_of(c):
@@ -103,6 +105,8 @@ def apply_op(pool, op):
     name = op[0]
     if name == 'CustPrim':
         pool.append(pool[op[1]].customize(**KWD[op[2]]))
+    elif name == 'CustProt':
+        pool.append(pool[op[1]].customize(prot=form_protocol(), **(KWD[op[2]] if op[2] != 'none' else {})))
     elif name == 'Customize':
         pool.append(pool[op[1]].customize(**KWD[op[2]]))
     elif name == 'ChildAttrs':
@@ -136,6 +140,18 @@ def apply_op(pool, op):
 
 
 PUB = [0]
+_FORM = []
+
+
+def form_protocol():
+    """ONE protocol object whose class declares type attributes of its own (they travel with every derivation made for it)"""
+    if not _FORM:
+        from spyne.protocol import ProtocolBase
+
+        class FormProtocol(ProtocolBase):
+            type_attrs = {'empty_is_none': True}
+        _FORM.append(FormProtocol())
+    return _FORM[0]
 
 
 def names_of(pool):
@@ -237,14 +253,15 @@ def directed_histories():
     """Histories aimed at what publication may rename: two arrays (or an array and a Mandatory variant) over ONE type,
     each published in an application of its own, in both orders; classes and their variants published one after the other."""
     out = []
+    N = len(fresh_pool())          # id of the first derived model
     for p, kw in ((1, 'ge5'), (1, 'min1'), (2, 'len3'), (2, 'nil0')):
-        for order in ((7, 8), (8, 7)):
-            out.append([('CustPrim', p, kw), ('ArrayOf', 6), ('ArrayOf', 6), ('Publish', order[0]), ('Publish', order[1])])
-        out.append([('CustPrim', p, kw), ('ArrayOf', 6), ('Publish', 7), ('ArrayOf', 6), ('Publish', 8), ('Publish', 6)])
-        out.append([('CustPrim', p, kw), ('ArrayOf', 6), ('Mandatory', 7), ('Publish', 8), ('ArrayOf', 6), ('Publish', 9), ('Publish', 7)])
-    for c in (3, 4, 5):
-        out.append([('ArrayOf', c), ('ArrayOf', c), ('Publish', 6), ('Publish', 7)])
-        out.append([('Customize', c, 'min1'), ('ArrayOf', 6), ('ArrayOf', 6), ('Publish', 8), ('Publish', 7), ('Publish', c)])
+        for order in ((N + 1, N + 2), (N + 2, N + 1)):
+            out.append([('CustPrim', p, kw), ('ArrayOf', N), ('ArrayOf', N), ('Publish', order[0]), ('Publish', order[1])])
+        out.append([('CustPrim', p, kw), ('ArrayOf', N), ('Publish', N + 1), ('ArrayOf', N), ('Publish', N + 2), ('Publish', N)])
+        out.append([('CustPrim', p, kw), ('ArrayOf', N), ('Mandatory', N + 1), ('Publish', N + 2), ('ArrayOf', N), ('Publish', N + 3), ('Publish', N + 1)])
+    for c in (3, 4, 5, 6):
+        out.append([('ArrayOf', c), ('ArrayOf', c), ('Publish', N), ('Publish', N + 1)])
+        out.append([('Customize', c, 'min1'), ('ArrayOf', N), ('ArrayOf', N), ('Publish', N + 2), ('Publish', N + 1), ('Publish', c)])
     return out
 
 
@@ -277,13 +294,14 @@ def pick_op(rnd, pool):
     for i in cls_ids:
         allnames |= set(pool[i].get_flat_type_info(pool[i]).keys())
     for _ in range(50):
-        k = rnd.choice(['CustPrim', 'Customize', 'ChildAttrs', 'ChildAttrsAll', 'ArrayOf', 'ArrayOf', 'Mandatory', 'Subclass',
+        k = rnd.choice(['CustPrim', 'CustProt', 'Customize', 'ChildAttrs', 'ChildAttrsAll', 'ArrayOf', 'ArrayOf', 'Mandatory', 'Subclass',
                         'AppendField', 'InsertField', 'Publish', 'Publish'])
         if k == 'Publish':
             return (k, rnd.choice(ids))
-        if k == 'CustPrim':
+        if k in ('CustPrim', 'CustProt'):
             i = rnd.choice(prim_ids)
-            return (k, i, rnd.choice(['min1', 'nil0', 'ge5'] if base_of(pool[i]) == 'int' else ['min1', 'nil0', 'len3']))
+            return (k, i, rnd.choice((['min1', 'nil0', 'ge5', 'pk1', 'pk0'] if base_of(pool[i]) == 'int' else ['min1', 'nil0', 'len3', 'pk1', 'pk0', 'v03', 'v36'])
+                                     + (['none', 'none'] if k == 'CustProt' else [])))
         if k in ('Customize', 'ChildAttrsAll'):
             return (k, rnd.choice(cls_ids), rnd.choice(['min1', 'nil0']))
         if k == 'ChildAttrs':
@@ -299,7 +317,7 @@ def pick_op(rnd, pool):
         if k == 'Mandatory':
             return (k, rnd.choice(ids))
         if k == 'Subclass':
-            roots = [i for i in cls_ids if i in (3, 4, 5) or pool[i].__name__.startswith('Sub')]
+            roots = [i for i in cls_ids if i in (3, 4, 5, 6) or pool[i].__name__.startswith('Sub')]
             i = rnd.choice(roots)
             if 'x' in pool[i].get_flat_type_info(pool[i]):
                 continue
@@ -379,6 +397,9 @@ def run(ctx):
             continue
         jobs.append((ops_to(nid), tla_view(nodes[nid]['view'])))
     jobs.sort(key=lambda j: json.dumps(j[0]))
+    if ctx.quick:
+        # every one-step history; a third of the two-step ones, rotating with the seed (the thorough tier replays all)
+        jobs = [j for k, j in enumerate(jobs) if len(j[0]) < 2 or (k + ctx.seed) % 3 == 0]
     nproc = 8
     outs = run_workers(ctx, 'replay_worker', [jobs[i::nproc] for i in range(nproc)])
     nmis = 0
